@@ -356,10 +356,23 @@ def return_tuples(fi: FuncInfo) -> List[RetTuple]:
             name = v.id
         if name is None:
             continue
-        defs = [d for d in flow.reaching(n, name) if d.kind == "assign" and isinstance(d.value, (ast.List, ast.Tuple)) and not d.path]
-        if len(defs) != 1 or len(flow.reaching(n, name)) != 1:
+        # the initial display; `name += (x,)` / `name = name + (x,)` extensions are replayed along each path
+        alld = [d for dl in flow.defs_at.values() for d in dl if d.name == name]
+        defs = [d for d in alld if d.kind == "assign" and isinstance(d.value, (ast.List, ast.Tuple)) and not d.path]
+        ext = [d for d in alld if d not in defs]
+
+        def _ext_elts(d):
+            if d.kind == "aug" and isinstance(d.value, ast.AugAssign) and isinstance(d.value.op, ast.Add) and isinstance(d.value.value, (ast.Tuple, ast.List)):
+                return list(d.value.value.elts)
+            if d.kind == "assign" and isinstance(d.value, ast.BinOp) and isinstance(d.value.op, ast.Add) and isinstance(d.value.left, ast.Name) and d.value.left.id == name \
+                    and isinstance(d.value.right, (ast.Tuple, ast.List)):
+                return list(d.value.right.elts)
+            return None
+
+        if len(defs) != 1 or any(_ext_elts(d) is None for d in ext) or not any(x is defs[0] for x in flow.reaching(n, name)) and not ext:
             continue
         d0 = defs[0]
+        ext_at = {d.node.id: _ext_elts(d) for d in ext if d.node is not None}
         try:
             paths = cfg.acyclic_paths(d0.node.id, n.id, limit=4000)
         except OverflowError:
@@ -370,6 +383,8 @@ def return_tuples(fi: FuncInfo) -> List[RetTuple]:
             ok = True
             for (nid, lab) in p[1:]:
                 nd = cfg.nodes[nid]
+                if nid in ext_at and nid != n.id:
+                    elts.extend(ext_at[nid])
                 if nd.ast is None:
                     continue
                 for c in ast.walk(nd.ast) if nd.kind in ("stmt",) else []:
